@@ -1,4 +1,7 @@
 #!/bin/bash
 # Entry point registered in MANIFEST.json: ./check.sh <Cxx> <quick|thorough> | --setup | --replay <path>
 cd "$(dirname "$0")"
-exec python3 lib/check.py "$@"
+# one fixed interpreter (the system one) whatever the caller's PATH / conda / pyenv set-up is
+PY=/usr/bin/python3
+[ -x "$PY" ] || PY=python3
+exec "$PY" lib/check.py "$@"
